@@ -139,8 +139,8 @@ func Session(t *tape.Tape) *core.RunResult {
 	}
 	nClients := t.Range(2, 5)
 	opsPer := t.Range(2, 8)
-	if nClients*opsPer > 36 {
-		opsPer = 36 / nClients
+	if maxOps := core.Scale(36, 56); nClients*opsPer > maxOps {
+		opsPer = maxOps / nClients
 	}
 	res.Tracef("slots=%d hashes=%d clients=%d ops/client=%d", slots, nHash, nClients, opsPer)
 
